@@ -30,3 +30,21 @@ func VerifFilterStrengths(level, sharpness int, useLFDelta bool, ref0, mode0 int
 	dec.precomputeFilterStrengths()
 	return dec.fstrengths
 }
+
+// VerifDoFilter runs doFilter(mbX, mbY) on a fresh Decoder whose cache planes
+// are copies of y, u, v (strides yStride, uvStride) and whose fInfo[mbX] holds
+// the given strengths; it returns the three planes afterwards.
+func VerifDoFilter(filterType int, limit, ilevel, hev uint8, inner bool, mbX, mbY, yStride, uvStride int,
+	y, u, v []byte) ([]byte, []byte, []byte) {
+	dec := &Decoder{}
+	dec.filterType = filterType
+	dec.fInfo = make([]FInfo, mbX+1)
+	dec.fInfo[mbX] = FInfo{FLimit: limit, FILevel: ilevel, FInner: inner, HevThresh: hev}
+	dec.cacheY = append([]byte(nil), y...)
+	dec.cacheU = append([]byte(nil), u...)
+	dec.cacheV = append([]byte(nil), v...)
+	dec.cacheYStride = yStride
+	dec.cacheUVStride = uvStride
+	dec.doFilter(mbX, mbY)
+	return dec.cacheY, dec.cacheU, dec.cacheV
+}
